@@ -1,6 +1,6 @@
 """C12 — a call limit never changes a result silently (DESIGN.md section 4, C12)."""
 from .. import facts, hirq
-from ..hirq import walk, kind, callee, where, PathEnum, exits
+from ..hirq import walk, kind, callee, where, peel, PathEnum, exits
 
 LEVEL = "other"
 
@@ -170,6 +170,8 @@ def check(rep, c, cfg):
                         "clears the limit after a call was refused, `reached` turns false again and the absorbed "
                         "refusal is returned as a success (the tracker must copy the limit when it is created)" % b["name"])
 
+    setter(rep, c, sfx, ctors)
+
     # ---------------------------------------------------------------- EXITS
     r2 = rep.rule("C12.EXITS" + sfx, 2,
                   "in pest::state every path from the return of the user closure to a result consults the "
@@ -297,3 +299,67 @@ MANIFEST = {
             "rustc's HIR/type resolution and the rule library. A parse that used exactly `limit` calls is "
             "reported as limit reached, which the property allows.",
 }
+
+
+# ---------------------------------------------------------------- SETTER
+
+GLOBAL = "pest::parser_state::CALL_LIMIT"
+
+
+def setter(rep, c, sfx, ctors):
+    r = rep.rule("C12.SETTER" + sfx, 1,
+                 "the public setter stores into the process-wide limit on every path (Some(n) and None alike), and the "
+                 "value it stores for None is the one the tracker constructor reads as 'no limit': otherwise "
+                 "set_call_limit(None) leaves an earlier limit in force and 'the result with no limit' is not what an "
+                 "unlimited parse returns")
+    setters = []
+    for b in c.bodies:
+        if b["dk"] != "Fn" or b.get("vis") != "pub":
+            continue
+        if any(kind(n) == "MethodCall" and n["m"] == "store" and any(
+                kind(x) == "Path" and x.get("path") == GLOBAL for x in walk(n["recv"])) for n in walk(b["body"])):
+            setters.append(b)
+    if not setters:
+        r.lost("a public function storing into CALL_LIMIT")
+        return
+    for b in setters:
+        key = b["name"]
+        pe = PathEnum(b, inline_closures=False)
+        n = 0
+        bad = None
+        for (ev, out) in exits(pe.paths()):
+            n += 1
+            st = [e for e in ev if e.kind == "call" and kind(e.node) == "MethodCall" and e.node["m"] == "store"
+                  and any(kind(x) == "Path" and x.get("path") == GLOBAL for x in walk(e.node["recv"]))]
+            if not st:
+                bad = ev
+        r.instance("store-on-every-path:" + key, where(b["body"]), "%d paths" % n)
+        if bad is not None:
+            conds = [("%s is %s" % (hirq.expr_text(e.node)[:60], e.extra)) for e in bad if e.kind == "cond"]
+            r.violation("store-on-every-path:" + key, where(b["body"]),
+                        "a path of %s returns without storing the limit (%s): an earlier limit stays in force"
+                        % (key, "; ".join(conds) or "unconditional"))
+        # sentinel agreement: integer literals of the stored value vs the constructor's threshold
+        lits = set()
+        for x in walk(b["body"]):
+            if kind(x) == "Lit" and isinstance(hirq.lit_value(x), int):
+                lits.add(hirq.lit_value(x))
+        thr = set()
+        for cp in ctors:
+            fn = c.fn(cp)
+            if fn is None:
+                continue
+            for x in walk(fn["body"]):
+                if kind(x) == "Binary" and x["op"] in (">", "!=", "==", ">=", "<") and any(
+                        kind(peel(y)) == "Lit" for y in (x["l"], x["r"])):
+                    for y in (x["l"], x["r"]):
+                        if kind(peel(y)) == "Lit" and isinstance(hirq.lit_value(peel(y)), int):
+                            thr.add(hirq.lit_value(peel(y)))
+        if len(thr) == 1 and lits:
+            r.instance("sentinel:" + key, where(b["body"]), "setter literal(s) %s, constructor threshold %s" % (sorted(lits), sorted(thr)))
+            if not (thr <= lits):
+                r.violation("sentinel:" + key, where(b["body"]),
+                            "the setter's value for `None` (%s) is not the value the tracker constructor treats as "
+                            "unlimited (%s)" % (sorted(lits), sorted(thr)))
+        else:
+            r.note("sentinel comparison skipped for %s: literals %s, thresholds %s" % (key, sorted(lits), sorted(thr)))
